@@ -132,7 +132,7 @@ StartSusp(n, k, verdict) ==
                            !.inv = inv, !.invn = IF consulted THEN 1 ELSE 0,
                            !.invkey = IF consulted THEN k ELSE "",
                            !.invval = IF consulted THEN pre.store[k].val ELSE -1,
-                           !.cret = IF exec THEN -1 ELSE g.ret]
+                           !.cret = IF exec THEN -1 ELSE g.ret, !.task = "susp"]
      IN /\ (~consulted => verdict = 0)
         /\ exec                       \* a hit completes at once (that is CallGet)
         /\ Book(r, [cs EXCEPT ![n] = g.c])
